@@ -117,6 +117,47 @@ def imported_modules(repo=None):
     return out
 
 
+def guarded_imports(repo=None):
+    """modules the package imports inside a `try:` whose handlers catch ImportError / Exception (or anything): 'works without it' code paths"""
+    repo = repo or os.environ.get("VERIF_REPO", "/repo")
+    out = set()
+    for dp, dn, fn in os.walk(os.path.join(repo, "webauthn")):
+        for f in fn:
+            if f.endswith(".py"):
+                try:
+                    tree = ast.parse(open(os.path.join(dp, f), encoding="utf-8").read())
+                except Exception:
+                    continue
+                for node in ast.walk(tree):
+                    if isinstance(node, ast.Try):
+                        names = set()
+                        for h in node.handlers:
+                            t = h.type
+                            els = t.elts if isinstance(t, ast.Tuple) else [t] if t is not None else []
+                            names |= {getattr(e, "id", getattr(e, "attr", "")) for e in els}
+                            if t is None:
+                                names.add("Exception")
+                        if names & {"ImportError", "ModuleNotFoundError", "Exception", "BaseException", "AttributeError"}:
+                            for st in node.body:
+                                for sub_ in ast.walk(st):
+                                    if isinstance(sub_, ast.Import):
+                                        out |= {a.name.split(".")[0] for a in sub_.names}
+                                    elif isinstance(sub_, ast.ImportFrom) and sub_.module and sub_.level == 0:
+                                        out.add(sub_.module.split(".")[0])
+    return out
+
+
+def new_guarded_imports(repo=None):
+    """modules whose import the CHANGED source guards with try / except and the pinned source did not: candidates for 'this dependency is broken or absent' hosts"""
+    try:
+        base = json.load(open(BASELINE))
+    except Exception:
+        return []
+    if "guarded_imports" not in base:
+        return []
+    return sorted(guarded_imports(repo) - set(base["guarded_imports"]))
+
+
 def new_imports(repo=None):
     """modules the CHANGED source imports and the pinned source did not"""
     try:
@@ -185,6 +226,7 @@ def write_baseline(repo):
     d["api"] = sorted(public_callables(repo))
     d["imports"] = sorted(imported_modules(repo))
     d["signatures"] = signatures(repo)
+    d["guarded_imports"] = sorted(guarded_imports(repo))
     json.dump(d, open(BASELINE, "w"), indent=0)
 
 
